@@ -29,7 +29,7 @@ func main() {
 		defer os.RemoveAll(base)
 
 		var replay struct {
-			Spec  *e2e.Spec  `json:"spec"`
+			Spec  *e2e.Spec   `json:"spec"`
 			Specs []*e2e.Spec `json:"specs"`
 		}
 		if c.ReadReplay(&replay) && len(replay.Specs) > 0 {
